@@ -315,6 +315,7 @@ Qed.
 
 (* ------------------------------------------------------------------ swapped unlock/lock: refuted with two shards *)
 Definition A (t : nat) (pay : N) : hact := mkA t 7 pay false.
+Definition AR (t : nat) (pay : N) (rot : bool) : hact := mkA t 7 pay rot.
 (* shard 0 appends #1 and releases aofGlock; shard 1 appends #2, overtakes, pushes, leaves; shard 0 pushes *)
 Definition swap_sched : list hact :=
   [A 0 1; A 0 1; A 0 1;   A 1 2; A 1 2; A 1 2; A 1 2; A 1 2; A 1 2;   A 0 1; A 0 1; A 0 1].
